@@ -52,11 +52,12 @@ pub struct ReBody {
     dir: Dir,
     pending_pct: u64,
     recut: bool,
+    consec_pending: u32,
 }
 
 impl ReBody {
     pub fn new(sim: &Sim, inner: tonic::body::Body, tap: Tap, call: usize, dir: Dir, pending_pct: u64, recut: bool) -> ReBody {
-        ReBody { sim: sim.clone(), inner, inner_done: false, carry: VecDeque::new(), pending_trailers: None, pending_err: None, finished: false, tap, call, dir, pending_pct, recut }
+        ReBody { sim: sim.clone(), inner, inner_done: false, carry: VecDeque::new(), pending_trailers: None, pending_err: None, finished: false, tap, call, dir, pending_pct, recut, consec_pending: 0 }
     }
     fn rec<F: FnOnce(&mut WireDir)>(&self, f: F) {
         let mut t = self.tap.lock().unwrap();
@@ -78,11 +79,13 @@ impl Body for ReBody {
         if this.finished {
             return Poll::Ready(None);
         }
-        if this.pending_pct > 0 && this.sim.chance(this.pending_pct, 100) {
+        if this.pending_pct > 0 && this.consec_pending < crate::seams::MAX_CONSEC_PENDING && this.sim.chance(this.pending_pct, 100) {
+            this.consec_pending += 1;
             this.sim.fault("wire-pending");
             cx.waker().wake_by_ref();
             return Poll::Pending;
         }
+        this.consec_pending = 0;
         loop {
             if let Some(front) = this.carry.front_mut() {
                 let avail = front.len();
